@@ -19,6 +19,7 @@ def run(ctx):
     ctx.rule("C12.R2", "K2", "every header field consumed by the field loop is counted against limit_request_fields")
     ctx.rule("C12.R3", "K11", "every accumulate-until-delimiter loop has a configuration-derived cap that raises")
     r1(ctx)
+    size_checked(ctx)
     r2(ctx)
     r3(ctx)
 
@@ -122,6 +123,42 @@ def r1(ctx):
         ctx.check("C12.R1", ok_init and bool(acc), key(fh, "size-measure|" + HL), site(fh), "the field length does not count the line plus CRLF and every continuation line", "len(line)+2, += per continuation")
 
 
+def size_checked(ctx, rid="C12.R1"):
+    """every way of finishing a field (append or drop-`continue`) passes the size check of the *complete* field"""
+    repo = ctx.repo
+    fh = repo.func(MSG + ".Message.parse_headers")
+    g = fh.cfg
+    outer = _field_loop(fh)
+    size_tests = [t for t in g.tests() if "limit_request_field_size" in norm(t.ast) and compare(t.ast)]
+    hl = set()
+    for t in size_tests:
+        c = compare(t.ast)
+        for side in (c[0], c[2]):
+            if isinstance(side, ast.Name):
+                hl.add(side.id)
+    if len(hl) != 1:
+        raise AnalysisError("%s: field-length variable of the size check not recognised" % rid)
+    HL = hl.pop()
+    ret = [n.ast.value.id for n in g.stmts(ast.Return) if isinstance(n.ast.value, ast.Name)][0]
+    done = [n for c in method_calls(fh, "append") if isinstance(c.func.value, ast.Name) and c.func.value.id == ret for n in nodes_with(fh, c)]
+    done += [n for n in g.stmts(ast.Continue) if fh.module.enclosing(n.ast, (ast.While, ast.For)) is outer]
+
+    def recog(e):
+        c = compare(e)
+        if not c or "limit_request_field_size" not in norm(e):
+            return None
+        if isinstance(c[0], ast.Name) and c[0].id == HL and c[1] in (ast.Gt, ast.GtE):
+            return +1          # its false edge: the field fits
+        if tail(c[0]) == "limit_request_field_size" and const(c[2], NO) == 0 and c[1] is ast.Gt:
+            return +1          # its false edge: 0 = unlimited
+        return None
+    for t in done:
+        p, hits = guard_check(fh, [t], recog, kills=[k for k in stores_to_name(fh, HL)])
+        ctx.check(rid, p is None, key(fh, "size-checked|" + ("continue" if isinstance(t.ast, ast.Continue) else "append")), site(fh, t),
+                  "a header field can be accepted or dropped (`%s`) without its complete length having been compared with limit_request_field_size: an oversized field "
+                  "(e.g. with an underscore name under header_map=drop) slips through" % t.text, "size check dominates", path=p and g.fmt_path(p))
+
+
 def _field_loop(f):
     for w in walk_own(f.node):
         if isinstance(w, ast.While) and any(isinstance(c, ast.Call) and isinstance(c.func, ast.Attribute) and c.func.attr == "append" for c in ast.walk(w)) and \
@@ -220,6 +257,42 @@ def r3(ctx):
                       "a client that never sends the delimiter makes the server buffer without bound" % (delim[:1] or "",),
                       "capped by `%s`" % (norm(caps[0]) if caps else ""))
     ctx.floor("C12.R3", "accumulate-until-delimiter loops", n, 4)
+    # every other loop of the http layer that reads from the connection and accumulates is self-bounded by a length
+    m = 0
+    for mn in (MSG, BODY, "gunicorn.http.parser", "gunicorn.http.unreader"):
+        for f in repo.module(mn).all_funcs:
+            if f.qualname in scope or (f.cls is not None and f.cls.name == "Body"):
+                continue          # Body serves application-sized reads of body data, not protocol data awaiting a delimiter
+            for w in [x for x in walk_own(f.node) if isinstance(x, ast.While)]:
+                def own(node, w=w):
+                    """statements of this loop's body that are not inside a nested loop (those are judged on their own)"""
+                    for a in f.module.ancestors(node):
+                        if a is w:
+                            return True
+                        if isinstance(a, (ast.While, ast.For)):
+                            return False
+                    return False
+                reads = [c for st in w.body for c in ast.walk(st) if is_read_call(repo, f, c) and own(c)]
+                if not reads:
+                    continue
+                accum = [x for st in w.body for x in ast.walk(st) if own(x) and ((isinstance(x, ast.AugAssign) and isinstance(x.op, ast.Add) and not isinstance(x.value, ast.Constant)) or
+                         (isinstance(x, ast.Call) and isinstance(x.func, ast.Attribute) and x.func.attr in ("write", "append", "extend")))]
+                if not accum:
+                    continue
+                m += 1
+                ctx.fn(f)
+                bounded = False
+                for e in [w.test] + [x.test for st in w.body for x in ast.walk(st) if isinstance(x, ast.If) and any(isinstance(y, (ast.Break, ast.Return, ast.Raise)) for y in x.body)]:
+                    for cmpn in [y for y in ast.walk(e) if isinstance(y, ast.Compare)]:
+                        txt = norm(cmpn)
+                        measures = "len(" in txt or ".tell()" in txt
+                        against = any(isinstance(y, ast.Name) for y in ast.walk(cmpn)) or any(isinstance(y, ast.Constant) and isinstance(y.value, int) for y in ast.walk(cmpn))
+                        if measures and against:
+                            bounded = True
+                ctx.check("C12.R3", bounded, key(f, "unbounded-accumulation"), site(f, w.test),
+                          "this loop keeps reading from the connection and accumulating (`%s`) with no length-based exit or cap: a client that keeps sending makes the server buffer without bound" % norm(accum[0]),
+                          "self-bounded by a length comparison")
+    ctx.count("self-bounded read loops", m)
     # the header block cap depends on both field limits
     fm = repo.func(MSG + ".Message.__init__")
     st = [x for x in walk_own(fm.node) if isinstance(x, ast.Assign) and any(tail(t) == "max_buffer_headers" for t in x.targets)]
